@@ -218,6 +218,10 @@ TagTok(n, at, g) == [t |-> "open", n |-> n, g |-> g, attrs |-> at]
 \*   [a |-> "spread", m]    [a |-> "cond", c, then, else]   (then/else: lists of const/boolc/expr/class attributes)
 \*   [a |-> "class", e]     class={ expr } with a plain string class name (id K1...)
 \*   [a |-> "class2"]       class={ K1, K2 }: two class expressions (not a single string expression)
+\*   [a |-> "cssclass"]     class={ boxed() }: the class of a css template; its <style> element is written in front of
+\*                          the start tag, once per rendering (a "def" token, see Dedupe)
+\*   [a |-> "scriptcall"]   onclick={ greet("x") }: a call of a script template; the <script> element defining the
+\*                          function is written in front of the start tag, once per rendering
 \* What a spread map contributes, in key order (RenderAttributes sorts the keys). M1 holds one string value;
 \* M2 holds one entry of every value kind the runtime distinguishes: string, *string, bool, *bool,
 \* KeyValue[string,bool], KeyValue[bool,bool], func() bool -- each in its "present" and "absent" form.
@@ -228,7 +232,7 @@ SpreadPairs(m) ==
 
 RECURSIVE DenAttrs(_, _)
 DenAttrs(at, env) ==
-    IF at = <<>> THEN [pairs |-> <<>>, evs |-> <<>>]
+    IF at = <<>> THEN [pairs |-> <<>>, evs |-> <<>>, defs |-> <<>>]
     ELSE LET a == Head(at)
              rest == DenAttrs(Tail(at), env)
              one == CASE a.a = "const"  -> [pairs |-> << [n |-> a.n, v |-> a.v] >>, evs |-> <<>>]
@@ -241,7 +245,17 @@ DenAttrs(at, env) ==
                       [] a.a = "spread" -> [pairs |-> SpreadPairs(a.m), evs |-> << a.m >>]
                       [] a.a = "cond"   -> LET sub == DenAttrs(IF env.c[a.c] THEN a.then ELSE a.else, env)
                                            IN [pairs |-> sub.pairs, evs |-> << a.c >> \o sub.evs]
-         IN [pairs |-> one.pairs \o rest.pairs, evs |-> one.evs \o rest.evs]
+                      [] a.a = "cssclass"   -> [pairs |-> << [n |-> "class", v |-> "CSSB"] >>, evs |-> <<>>]
+                      [] a.a = "scriptcall" -> [pairs |-> << [n |-> "onclick", v |-> "SCRG"] >>, evs |-> <<>>]
+             defs == CASE a.a = "cssclass"   -> << "cssB" >>
+                       [] a.a = "scriptcall" -> << "scriptG" >>
+                       [] OTHER -> <<>>       \* (conditional attributes never hold them in this vocabulary)
+         IN [pairs |-> one.pairs \o rest.pairs, evs |-> one.evs \o rest.evs, defs |-> defs \o rest.defs]
+
+\* a start tag with the definitions its attributes need in front of it: the first token carries the gap
+StartTag(name, a, g) ==
+    [i \in 1..Len(a.defs) |-> Tok("def", a.defs[i], IF i = 1 THEN g ELSE "mustnot")]
+    \o << TagTok(name, a.pairs, IF a.defs = <<>> THEN g ELSE "mustnot") >>
 
 \* fixed components of the harness: leaf = <i>leaf</i>, wrap = <section>{ children... }</section>,
 \* the template itself is rendered with the child block <u>kid</u>
@@ -300,11 +314,11 @@ DenNode(nd, prev, env) ==
     CASE nd.k = "text" -> [toks |-> << Tok("word", nd.w, Gap(prev, nd)) >>, evs |-> <<>>, prev |-> PNode(nd)]
       [] nd.k = "expr" -> [toks |-> << Tok("val", nd.e, Gap(prev, nd)) >>, evs |-> << nd.e >>, prev |-> PNode(nd)]
       [] nd.k = "void" -> LET a == DenAttrs(nd.attrs, env) IN
-                          [toks |-> << TagTok(nd.name, a.pairs, Gap(prev, nd)) >>, evs |-> a.evs, prev |-> PNode(nd)]
+                          [toks |-> StartTag(nd.name, a, Gap(prev, nd)), evs |-> a.evs, prev |-> PNode(nd)]
       [] nd.k = "el"   -> LET a == DenAttrs(nd.attrs, env)
                               ks == DenList(nd.kids, POpen(nd.lead), env)
                               cg == IF nd.kids = <<>> THEN "mustnot" ELSE GapClose(ks.prev)
-                          IN [toks |-> << TagTok(nd.name, a.pairs, Gap(prev, nd)) >> \o ks.toks \o << Tok("close", nd.name, cg) >>,
+                          IN [toks |-> StartTag(nd.name, a, Gap(prev, nd)) \o ks.toks \o << Tok("close", nd.name, cg) >>,
                               evs |-> a.evs \o ks.evs, prev |-> PNode(nd)]
       [] nd.k = "if"   -> LET r == DenBranches(nd.brs, nd.els, Through(prev), env, 1)
                           IN [toks |-> r.toks, evs |-> r.evs, prev |-> After(r.prev)]
@@ -328,7 +342,16 @@ DenNode(nd, prev, env) ==
                           evs |-> IF nd.name = "scriptgo" THEN << "E1", "E1" >> ELSE <<>>, prev |-> PNode(nd)]
       [] nd.k = "doctype" -> [toks |-> << Tok("doctype", "html", "may") >>, evs |-> <<>>, prev |-> POpaque]
 
-Denote(nodes, env) == LET r == DenList(nodes, POpaque, env) IN [toks |-> r.toks, evs |-> r.evs]
+\* A definition is rendered once per rendering: every later "def" token of the same name is dropped, and the token
+\* behind it inherits its gap (the registry of rendered classes and scripts lives in the rendering's context: C12).
+RECURSIVE Dedupe(_, _, _)
+Dedupe(toks, seen, carry) ==
+    IF toks = <<>> THEN <<>>
+    ELSE LET t == IF carry = "none" THEN Head(toks) ELSE [Head(toks) EXCEPT !.g = carry] IN
+         IF t.t = "def" /\ t.n \in seen THEN Dedupe(Tail(toks), seen, t.g)
+         ELSE << t >> \o Dedupe(Tail(toks), IF t.t = "def" THEN seen \cup {t.n} ELSE seen, "none")
+
+Denote(nodes, env) == LET r == DenList(nodes, POpaque, env) IN [toks |-> Dedupe(r.toks, {}, "none"), evs |-> r.evs]
 
 -----------------------------------------------------------------------------
 (* Properties of the language model itself (checked by TLC on every explored state) *)
@@ -342,7 +365,7 @@ MustOnlyBetweenInline ==
     done => \A env \in Envs : LET d == Denote(prog, env).toks IN
         \A i \in 1..Len(d) : d[i].g = "must" =>
             /\ i > 1
-            /\ d[i].t \in {"word", "val", "open"}
+            /\ d[i].t \in {"word", "val", "open", "def"}
             /\ d[i - 1].t \in {"word", "val", "close", "open"}
 
 \* tags are balanced in every denoted document
